@@ -131,6 +131,7 @@ type gen struct {
 	tagN          int
 	inExprClosure int
 	inExprCall    int
+	inCollection  int  // >0: generating an element of a slice literal / an append argument
 	rangeDepth    int  // >0: lexically inside a range loop of an enclosing function (closure bodies)
 	strSafe       int  // >0: string operands are literals, constants and read-only variables only
 	noReturn      int  // >0: no early return statements (inside a default clause)
